@@ -117,6 +117,15 @@ CHECKS.update({
         ref='3/C17'),
 })
 
+CHECKS.update({
+    'C10': dict(
+        technique='property-based testing of generated learn/refresh/re-case/withdraw/clock histories in the simulator; existential ladder-search oracle over the browser\'s query instants',
+        text=SIM + 'pointer records with different TTLs are learned in any order relative to the scheduler\'s armed wake-up; start-up schedule and question types, '
+             'minimum spacing, a 75 %/+10 % ladder of refresh attempts per record lifetime (searched existentially) and absence of queries on stale schedules are checked over hours of virtual time.',
+        note='ladder windows carry one inter-query delay of slack on both sides; expiry discovered by the engine\'s own purge timer',
+        ref='3/C10'),
+})
+
 NOT_YET = {
 }
 
